@@ -392,6 +392,8 @@ impl DB {
         let get_result = parking_lot::MutexGuard::unlocked_fair(
             &mut db_fields_guard,
             || -> RainDBResult<Option<Vec<u8>>> {
+                #[cfg(feature = "verif_hooks")]
+                crate::verif::point("get.unlocked");
                 let internal_key = InternalKey::new_for_seeking(key.to_vec(), snapshot);
 
                 // Check the memtable first
@@ -422,6 +424,8 @@ impl DB {
                 }
 
                 // Check table files on disk
+                #[cfg(feature = "verif_hooks")]
+                crate::verif::point("get.before_version");
                 match current_version
                     .read()
                     .element
@@ -1228,14 +1232,20 @@ impl DB {
                     WAL and to the memtable.
                     */
 
+                    #[cfg(feature = "verif_hooks")]
+                    crate::verif::point("write.before_wal");
                     // Write the changes to the write-ahead log first
                     unsafe {
                         // SAFETY: RainDB only allows one writer thread at a time.
                         (*self.wal().get()).append(&Vec::<u8>::from(&write_batch))?;
                     }
 
+                    #[cfg(feature = "verif_hooks")]
+                    crate::verif::point("write.after_wal");
                     // Write the changes to the memtable
                     DB::apply_batch_to_memtable(&**self.memtable(), &write_batch);
+                    #[cfg(feature = "verif_hooks")]
+                    crate::verif::point("write.after_memtable");
 
                     Ok(())
                 },
@@ -1344,6 +1354,8 @@ impl DB {
                 hands over some CPU to the compaction thread in case it is sharing the same core as
                 the writer.
                 */
+                #[cfg(feature = "verif_hooks")]
+                crate::verif::bump(crate::verif::Counter::L0Slowdown);
                 log::info!("Slowing down write's to allow some some time for compaction");
                 let one_millis = time::Duration::from_millis(1);
                 parking_lot::MutexGuard::<'_, GuardedDbFields>::unlocked_fair(mutex_guard, || {
@@ -1361,12 +1373,16 @@ impl DB {
                 We have filled up the current memtable, but the previous one is still being
                 compacted, so we wait.
                 */
+                #[cfg(feature = "verif_hooks")]
+                crate::verif::bump(crate::verif::Counter::MemtableWait);
                 log::info!(
                     "Current memtable is full but the previous memtable is still compacting. \
                     Waiting before attempting to compact current memtable."
                 );
                 self.background_work_finished_signal.wait(mutex_guard);
             } else if num_level_zero_files >= L0_STOP_WRITES_TRIGGER {
+                #[cfg(feature = "verif_hooks")]
+                crate::verif::bump(crate::verif::Counter::L0Stop);
                 log::info!(
                     "Too many level 0 files. Waiting for compaction before proceeding with write \
                     operations."
@@ -1423,6 +1439,8 @@ impl DB {
                 // RainDB enforces that only one thread can trigger a memtable compaction at a time
                 // so we just `swap` instead of `compare_and_swap`
                 let old_memtable = self.memtable_ptr.swap(new_memtable);
+                #[cfg(feature = "verif_hooks")]
+                crate::verif::bump(crate::verif::Counter::MemtableRotated);
                 log::info!("Move the current memtable to the immutable memtable field.");
                 mutex_guard.maybe_immutable_memtable = Some(Arc::clone(&old_memtable));
                 self.has_immutable_memtable.store(true, Ordering::Release);
@@ -1517,6 +1535,10 @@ impl DB {
             num_writers_in_batch += 1;
         }
 
+        #[cfg(feature = "verif_hooks")]
+        if num_writers_in_batch > 1 {
+            crate::verif::bump(crate::verif::Counter::GroupCommitMulti);
+        }
         log::debug!("Created a group commit with operations from {num_writers_in_batch} writers");
         Ok((group_commit_batch, Arc::clone(last_writer)))
     }
@@ -1532,6 +1554,8 @@ impl DB {
             );
             let value = batch_element.get_value().map_or(vec![], |val| val.to_vec());
             memtable.insert(internal_key, value);
+            #[cfg(feature = "verif_hooks")]
+            crate::verif::point("write.mid_memtable");
 
             curr_sequence_num += 1;
         }
@@ -1764,6 +1788,8 @@ impl DB {
         parking_lot::MutexGuard::<'_, GuardedDbFields>::unlocked_fair(
             db_fields_guard,
             || -> RainDBResult<()> {
+                #[cfg(feature = "verif_hooks")]
+                crate::verif::point("flush.before_build");
                 DB::build_table_from_iterator(
                     &db_state.options,
                     &mut file_metadata,
@@ -1772,6 +1798,8 @@ impl DB {
                 )
             },
         )?;
+        #[cfg(feature = "verif_hooks")]
+        crate::verif::bump(crate::verif::Counter::MemtableFlushed);
 
         log::info!(
             "Memtable table file {} created with a file size of {}.",
@@ -2085,8 +2113,13 @@ impl DB {
         names that will not collide with newly created files so it is safe to release the lock.
         */
         parking_lot::MutexGuard::<'_, GuardedDbFields>::unlocked_fair(db_fields_guard, move || {
+            #[cfg(feature = "verif_hooks")]
+            crate::verif::point("gc.before_delete");
             for file in files_to_delete {
                 log::info!("Removing obsolete file: {:?}", &file);
+                #[cfg(feature = "verif_hooks")]
+                crate::verif::bump(crate::verif::Counter::ObsoleteFileRemoved);
+
                 if let Err(error) = filesystem_provider.remove_file(&file) {
                     log::error!(
                         "There was an error removing the obsolete file {:?}. Error: {}",
@@ -2095,6 +2128,8 @@ impl DB {
                     );
                 }
             }
+            #[cfg(feature = "verif_hooks")]
+            crate::verif::point("gc.after_delete");
         });
     }
 
@@ -2235,6 +2270,81 @@ impl DB {
         }
 
         summary
+    }
+}
+
+/// Verification hooks
+#[cfg(feature = "verif_hooks")]
+impl DB {
+    /// The table files of the current version with their recorded key ranges.
+    pub fn verif_layout(&self) -> Vec<crate::verif::VFile> {
+        let db_fields_guard = self.guarded_fields.lock();
+        let current_version = db_fields_guard.version_set.get_current_version();
+        let mut layout = vec![];
+        for (level, files) in current_version.read().element.files.iter().enumerate() {
+            for file in files {
+                layout.push(crate::verif::VFile {
+                    level,
+                    number: file.file_number(),
+                    size: file.get_file_size(),
+                    smallest: file.smallest_key().into(),
+                    largest: file.largest_key().into(),
+                });
+            }
+        }
+
+        layout
+    }
+
+    /// A summary of internal state.
+    pub fn verif_state(&self) -> crate::verif::VState {
+        let db_fields_guard = self.guarded_fields.lock();
+        let version_set = &db_fields_guard.version_set;
+        let mut live_files: Vec<u64> = version_set.get_live_files().into_iter().collect();
+        live_files.sort_unstable();
+        let mut tables_in_use: Vec<u64> = db_fields_guard.tables_in_use.iter().copied().collect();
+        tables_in_use.sort_unstable();
+
+        crate::verif::VState {
+            version_set_wal_number: version_set.get_curr_wal_number(),
+            db_wal_number: db_fields_guard.curr_wal_file_number,
+            prev_wal_number: version_set.maybe_prev_wal_number(),
+            manifest_number: version_set.get_manifest_file_number(),
+            live_files,
+            tables_in_use,
+            num_versions: version_set.verif_num_versions(),
+            background_scheduled: db_fields_guard.background_compaction_scheduled,
+            has_immutable_memtable: db_fields_guard.maybe_immutable_memtable.is_some(),
+            needs_compaction: version_set.needs_compaction(),
+            bad_state: db_fields_guard
+                .maybe_bad_database_state
+                .as_ref()
+                .map(|err| err.to_string()),
+            last_sequence: version_set.get_prev_sequence_number(),
+            has_snapshots: !db_fields_guard.snapshots.is_empty(),
+        }
+    }
+
+    /**
+    Wait until no background work is scheduled. Returns false if `timeout` elapsed first.
+
+    Follow-up work is scheduled under the same lock hold that clears the scheduled flag, so an
+    unset flag means the compaction thread has nothing left to do.
+    */
+    pub fn verif_wait_idle(&self, timeout: time::Duration) -> bool {
+        let deadline = Instant::now() + timeout;
+        let mut db_fields_guard = self.guarded_fields.lock();
+        while db_fields_guard.background_compaction_scheduled {
+            if self
+                .background_work_finished_signal
+                .wait_until(&mut db_fields_guard, deadline)
+                .timed_out()
+            {
+                return !db_fields_guard.background_compaction_scheduled;
+            }
+        }
+
+        true
     }
 }
 
